@@ -6,7 +6,7 @@
 //! and instantaneous).
 //!
 //! Case line (space separated tokens, any token may be deleted by the shrinker):
-//!   `w=<stream window> cw=<connection window> sw=<server stream window> pipe=<duplex buffer> s:<m>:<status>:<kind>:<items>:<hdrs>:<client>` …
+//!   `[raw] w=<stream window> cw=<connection window> sw=<server stream window> pipe=<duplex buffer> s:<m>:<status>:<kind>:<items>:<hdrs>:<client>` …
 //!   m      G | H | P<n> (POST with an n-byte request body that the handler reads to the end first)
 //!   kind   n (body::None)  u (`()`)  b (Bytes)  ss (SizedStream)  bs (BodyStream)
 //!          xs (raw MessageBody, BodySize::Stream)  xz (raw MessageBody, BodySize::Sized(total))
@@ -87,6 +87,9 @@ struct Case {
     /// server-side (receive) stream window, for request bodies
     sw: u32,
     pipe: usize,
+    /// contract-sampling mode: the peer of the client is a bare `h2` server running a transliteration of
+    /// the model's send loop, instrumented to log every (reserved, granted) pair
+    raw: bool,
     streams: Vec<Spec>,
 }
 
@@ -148,7 +151,7 @@ fn parse_spec(tok: &str) -> Option<Spec> {
 }
 
 fn parse_case(line: &str) -> Option<Case> {
-    let mut c = Case { w: 65_535, cw: 65_535, sw: 65_535, pipe: 65_536, streams: vec![] };
+    let mut c = Case { w: 65_535, cw: 65_535, sw: 65_535, pipe: 65_536, raw: false, streams: vec![] };
     for tok in line.split_ascii_whitespace() {
         if let Some(v) = tok.strip_prefix("w=") {
             c.w = v.parse().ok()?;
@@ -156,6 +159,8 @@ fn parse_case(line: &str) -> Option<Case> {
             c.cw = v.parse().ok()?;
         } else if let Some(v) = tok.strip_prefix("sw=") {
             c.sw = v.parse().ok()?;
+        } else if tok == "raw" {
+            c.raw = true;
         } else if let Some(v) = tok.strip_prefix("pipe=") {
             c.pipe = v.parse().ok()?;
         } else {
@@ -395,7 +400,92 @@ async fn client_stream(
     }
 }
 
-async fn scenario(case: Case) -> Vec<Got> {
+type PollLog = Rc<RefCell<Vec<(usize, usize, usize)>>>;
+
+/// `Model.H2.adjustSize` + `isEof` (only what decides whether there is a body phase)
+fn raw_body_phase(s: &Spec) -> bool {
+    if s.head || s.status == 204 || s.status == 304 {
+        return false;
+    }
+    match s.kind {
+        Kind::None | Kind::Unit => false,
+        Kind::Bytes | Kind::SizedStream | Kind::RawSized => total(&s.items) != 0,
+        Kind::BodyStream | Kind::RawStream => true,
+    }
+}
+
+/// `Model.H2.sendBody` / `sendChunk` transliterated, against a real `h2` stream; logs (stream, reserved, granted)
+async fn raw_handle(k: usize, s: Spec, mut tx: h2::server::SendResponse<Bytes>, log: PollLog) {
+    let phase = raw_body_phase(&s);
+    let res = http::Response::builder().status(s.status).body(()).unwrap();
+    let Ok(mut stream) = tx.send_response(res, !phase) else { return };
+    if !phase {
+        return;
+    }
+    let items: Vec<Ev> = match s.kind {
+        Kind::Bytes => vec![Ev::Chunk(content(k, 0, total(&s.items)))],
+        _ => script(k, &s.items).into_iter().collect(),
+    };
+    for it in items {
+        let mut chunk = match it {
+            Ev::Pend => {
+                tokio::task::yield_now().await;
+                continue;
+            }
+            Ev::Err => return,
+            Ev::Chunk(b) => b,
+        };
+        if chunk.is_empty() {
+            continue;
+        }
+        loop {
+            let want = chunk.len().min(16_384);
+            stream.reserve_capacity(want);
+            match std::future::poll_fn(|cx| stream.poll_capacity(cx)).await {
+                None => return,
+                Some(Err(_)) => return,
+                Some(Ok(cap)) => {
+                    log.borrow_mut().push((k, want, cap));
+                    let n = chunk.len().min(cap);
+                    if stream.send_data(chunk.split_to(n), false).is_err() {
+                        return;
+                    }
+                    if chunk.is_empty() {
+                        break;
+                    }
+                }
+            }
+        }
+    }
+    let _ = stream.send_data(Bytes::new(), true);
+}
+
+async fn raw_server(io: tokio::io::DuplexStream, specs: Rc<Vec<Spec>>, sw: u32, log: PollLog) {
+    let mut b = h2::server::Builder::new();
+    b.initial_window_size(sw);
+    let Ok(mut conn) = b.handshake::<_, Bytes>(io).await else { return };
+    while let Some(Ok((req, tx))) = conn.accept().await {
+        let k: usize = req.uri().path().trim_start_matches('/').parse().unwrap_or(0);
+        let Some(spec) = specs.get(k).cloned() else { continue };
+        let log = log.clone();
+        actix_rt::spawn(async move {
+            let mut body = req.into_body();
+            while let Some(Ok(d)) = body.data().await {
+                let _ = body.flow_control().release_capacity(d.len());
+            }
+            raw_handle(k, spec, tx, log).await;
+        });
+    }
+}
+
+async fn scenario(case: Case) -> (Vec<Got>, Vec<(usize, usize, usize)>) {
+    let log: PollLog = Rc::new(RefCell::new(Vec::new()));
+    let gots = scenario_inner(case, log.clone()).await;
+    let polls = log.borrow().clone();
+    (gots, polls)
+}
+
+async fn scenario_inner(case: Case, log: PollLog) -> Vec<Got> {
     tokio::time::pause();
     let specs = Rc::new(case.streams.clone());
     let hspecs = specs.clone();
@@ -430,9 +520,13 @@ async fn scenario(case: Case) -> Vec<Got> {
         Err(_) => return vec![],
     };
     let (cio, sio) = tokio::io::duplex(case.pipe);
-    let server = actix_rt::spawn(async move {
-        let _ = svc.call((sio, None)).await;
-    });
+    let server = if case.raw {
+        actix_rt::spawn(raw_server(sio, specs.clone(), case.sw, log))
+    } else {
+        actix_rt::spawn(async move {
+            let _ = svc.call((sio, None)).await;
+        })
+    };
     let gots: Vec<Rc<RefCell<Got>>> = specs.iter().map(|_| Rc::new(RefCell::new(Got::default()))).collect();
     let hs = h2::client::Builder::new()
         .initial_window_size(case.w)
@@ -527,7 +621,8 @@ fn show_headers(h: &[(String, String)]) -> String {
     }
 }
 
-fn show(k: usize, s: &Spec, g: &Got) -> String {
+fn show(k: usize, s: &Spec, g: &Got, raw: bool) -> String {
+    let show_headers = |h: &[(String, String)]| if raw { "*".to_owned() } else { show_headers(h) };
     // a stream that is both reset by the client and failed by its body ends whichever comes first
     let racy = s.reset_at.is_some() && s.items.contains(&Item::Err);
     match g.end {
@@ -546,7 +641,7 @@ fn bodiless(status: u16) -> bool {
 }
 
 /// The property's own words evaluated on what the client saw, from the handler script alone.
-fn oracle(k: usize, s: &Spec, g: &Got) -> Option<(String, String)> {
+fn oracle(k: usize, s: &Spec, g: &Got, raw: bool) -> Option<(String, String)> {
     // what the handler's body produces
     let err_at = s.items.iter().position(|i| *i == Item::Err);
     let good = &s.items[..err_at.unwrap_or(s.items.len())];
@@ -563,7 +658,7 @@ fn oracle(k: usize, s: &Spec, g: &Got) -> Option<(String, String)> {
     if g.end == "hang" {
         return f("hang", format!("stream never completed ({})", g.detail));
     }
-    if g.head_seen {
+    if g.head_seen && !raw {
         if g.status != s.status {
             return f("status", format!("got {} want {}", g.status, s.status));
         }
@@ -631,19 +726,29 @@ fn run(line: &str) -> CaseResult {
         return CaseResult { output: "bad-case".into(), fail: None, nontrivial: false, tags: vec!["bad-case".into()] };
     };
     let c2 = case.clone();
-    let gots = crate::common::block_on_system(async move { scenario(c2).await });
+    let (gots, polls) = crate::common::block_on_system(async move { scenario(c2).await });
     if gots.len() != case.streams.len() {
         return CaseResult { output: "setup-failed".into(), fail: Some(("setup".into(), "service could not be built".into())), nontrivial: false, tags: vec![] };
     }
-    let out: Vec<String> = gots.iter().enumerate().map(|(k, g)| show(k, &case.streams[k], g)).collect();
+    let out: Vec<String> = gots.iter().enumerate().map(|(k, g)| show(k, &case.streams[k], g, case.raw)).collect();
     let mut res = CaseResult::ok(if out.is_empty() { "-".to_owned() } else { out.join(";") });
     res.nontrivial = gots.iter().any(|g| !g.body.is_empty());
     for (k, (s, g)) in case.streams.iter().zip(&gots).enumerate() {
-        if let Some((sig, d)) = oracle(k, s, g) {
+        if let Some((sig, d)) = oracle(k, s, g, case.raw) {
             res = res.fail(&sig, d);
         }
         res.tags.push(format!("end:{}", g.end));
         res.tags.push(format!("kind:{:?}", s.kind));
+    }
+    if case.raw {
+        // the assumptions `OracleContract.positive` / `.bounded` of Props/C08.lean, on the real h2 crate
+        for (k, want, cap) in &polls {
+            if *cap < 1 || cap > want {
+                res = res.fail("h2-contract", format!("stream {k}: reserve_capacity({want}) answered by poll_capacity -> {cap}"));
+            }
+        }
+        res.tags.push("mode:raw-h2-contract".into());
+        res.tags.push(format!("contract-polls:{}", match polls.len() { 0 => "0", 1..=9 => "1-9", 10..=99 => "10-99", _ => "100+" }));
     }
     res.tags.push(format!("streams:{}", case.streams.len()));
     res.tags.push(format!("w:{}", case.w));
@@ -789,6 +894,9 @@ fn gen(ctx: &Ctx) -> Vec<String> {
         }
         if rng.chance(1, 6) {
             toks.push(format!("sw={}", *rng.pick(&[1u32, 100, 1000])));
+        }
+        if rng.chance(1, 6) {
+            toks.push("raw".to_owned());
         }
         let ns = rng.range(1, 4);
         let big = i % 8 == 0;
